@@ -80,6 +80,12 @@ class GraphBasedModelConstructor:
     def get_transcript_id(self):
         return self.id_distributor.increment()
 
+    def clamp_to_chromosome(self, start, end):
+        # a polyA / polyT position is counted into the clipped part of a read and may lie beyond the sequence
+        if self.chr_record is not None and len(self.chr_record) > 0:
+            end = min(end, len(self.chr_record))
+        return max(1, start), end
+
     def set_gene_properties(self):
         intron_strands_dicts = defaultdict(lambda: defaultdict(int))
         self.intron_genes = defaultdict(set)
@@ -409,7 +415,7 @@ class GraphBasedModelConstructor:
                 # collapsing similar splice sites in the graph may leave two overlapping or touching introns next to each other:
                 # the exon between them does not exist and the fused intron is in no read
                 continue
-            transcript_range = (path[0][1], path[-1][1])
+            transcript_range = self.clamp_to_chromosome(path[0][1], path[-1][1])
             novel_exons = get_exons(transcript_range, list(intron_path))
             count = self.path_storage.paths[path]
             new_transcript_id = TranscriptNaming.transcript_prefix + str(self.get_transcript_id())
@@ -645,6 +651,7 @@ class GraphBasedModelConstructor:
 
             strand = '+' if forward else '-'
             coordinates = (five_prime_pos, three_prime_pos) if forward else (three_prime_pos, five_prime_pos)
+            coordinates = self.clamp_to_chromosome(coordinates[0], coordinates[1])
             new_transcript_id = TranscriptNaming.transcript_prefix + str(self.get_transcript_id())
             transcript_gene = (TranscriptNaming.novel_gene_prefix + self.gene_info.chr_id +
                                "_" + str(self.get_transcript_id()))
